@@ -44,6 +44,7 @@ def gen_scenario(r, tier):
         ops.append(r.choice(["fault drop ACKNACK -1 -1 -1", "fault hold ACKNACK -1 -1 -1",
                              "fault drop ACKNACK -1 -1 2", "fault hold ACKNACK -1 -1 3"]))
     data_faults = r.random() < 0.2
+    deleted = False
     for _ in range(n):
         x = r.random()
         if x < 0.55:
@@ -55,7 +56,11 @@ def gen_scenario(r, tier):
             m = mbt if mbt > 0 else 100_000_000
             ops.append("adv %d" % r.choice([1_000_000, 10_000_000, 50_000_000, m, max(1, m - 1), m + 1, 120_000_000, 250_000_000]))
         elif x < 0.93:
-            ops.append(r.choice(["clr", "rel", "rel", "clr"]))
+            if second and not deleted and r.random() < 0.3:
+                deleted = True
+                ops.append("delR 1")
+            else:
+                ops.append(r.choice(["clr", "rel", "rel", "clr"]))
         else:
             ops.append(r.choice(["fault drop ACKNACK -1 -1 -1", "fault hold ACKNACK -1 -1 -1",
                                  "fault drop ACKNACK -1 -1 1", "fault hold ACKNACK -1 -1 2"] +
@@ -98,10 +103,14 @@ def corpus():
         "P 0 ; T 0 t ; PUB 0 ; SUB 0 ; W 0 0 rel=1 hist=2 mbt=100000000 dur=1 ; w 0 1 10 ; w 0 1 10 ; w 0 1 10 ; w 0 2 10 ; "
         "mark ; R 0 0 rel=1 dur=1 ; net ; adv 10000000 ; net ; hist 0",
         hdr + "W 0 0 rel=0 hist=1 mbt=100000000 dur=1 ; R 0 0 rel=0 ; net ; ms 0 ; w 0 1 10 ; w 0 1 10 ; w 0 1 10 ; net",
-        # the reader that never acknowledged is deleted: its RTPS proxy stays in the writer (stale proxy, D19 /
-        # C16), so the writer keeps waiting for it: the parked write still times out, later ones are parked again
+        # one of two readers that never acknowledged is deleted while a write is parked: its proxy leaves the
+        # writer; the parked write still waits for the other reader and times out, a later write goes through
+        # once that reader has acknowledged
         hdr + "W 0 0 rel=1 hist=1 mbt=100000000 dur=1 ; R 0 0 rel=1 ; R 0 0 rel=1 ; net ; ms 0 ; fault drop ACKNACK -1 -1 -1 ; "
               "w 0 1 10 ; w 0 1 10 ; net ; delR 1 ; net ; adv 10000000 ; clr ; net ; adv 300000000 ; net ; w 0 1 10 ; adv 150000000 ; net",
+        # the only reader is deleted while a write is parked: nobody is left to wait for, the write completes
+        hdr + "W 0 0 rel=1 hist=1 mbt=200000000 dur=1 ; R 0 0 rel=1 ; net ; ms 0 ; fault drop ACKNACK -1 -1 -1 ; "
+              "w 0 1 10 ; w 0 1 10 ; net ; delR 0 ; net ; adv 10000000 ; w 0 1 10 ; adv 300000000",
         # KEEP_LAST(0) is accepted by the QoS validation and never replaces anything (finding C27-depth-zero-unbounded)
         hdr + "W 0 0 rel=1 hist=-1 mbt=100000000 dur=1 ; R 0 0 rel=1 ; net ; ms 0 ; w 0 1 10 ; w 0 1 10 ; w 0 1 10 ; net" + end,
     ]
@@ -113,14 +122,21 @@ def nontrivial(c, out):
 
 def distribution(cases, outs):
     d = {}
+
+    def add(k, n):
+        if n:
+            d[k] = d.get(k, 0) + n
+
     for c, o in zip(cases, outs):
         toks = o.split()
-        for k, pat in (("parked", "PENDING"), ("timeout", ":E10:"), ("completed-by-ack", ":0:"), ("second-blocked-error", " E1 ")):
-            n = sum(1 for t in toks if pat.strip() in t) if pat != " E1 " else o.count(" E1 @")
-            if n:
-                d[k] = d.get(k, 0) + n
-        d["writes"] = d.get("writes", 0) + sum(1 for x in c.split(";") if x.strip().startswith("w "))
-        d["acks"] = d.get("acks", 0) + sum(1 for t in toks if t.startswith("A"))
+        add("parked", sum(1 for t in toks if t == "PENDING"))
+        add("timeout", sum(1 for t in toks if t.startswith("!") and ":E10:" in t) + o.count(" E10 @"))
+        add("completed-by-ack", sum(1 for t in toks if t.startswith("!") and t.split(":")[1] == "0"))
+        add("second-blocked-error", o.count(" E1 @"))
+        add("writes", sum(1 for x in c.split(";") if x.strip().startswith("w ")))
+        add("acks", sum(1 for t in toks if t.startswith("A") and t.count(":") == 3))
+        add("reader-deleted", c.count("delR"))
+        add("data-or-heartbeat-faults", c.count("drop DATA") + c.count("drop HEARTBEAT"))
     return d
 
 
